@@ -1911,8 +1911,8 @@ int asn1_types_get_item_by_index(const uint8_t *d, size_t dlen, int tag,
 			return -1;
 		}
 		if (i++ == index) {
-			*item_d = d;
-			*item_dlen = dlen;
+			*item_d = a_d;
+			*item_dlen = a_dlen;
 			return 1; // do not check the following
 		}
 	}
